@@ -1,4 +1,53 @@
-// slice `remove_segment`: Schedule::remove_segment (C13), Schedule::add_dummy_tour
+// slice `remove_segment`: Schedule::remove_segment (C13: "Each schedule modification has its documented effect and
+// nothing else"), wiring-level proof over the contracts of its callees, verbatim body; plus the helpers
+// Schedule::add_dummy_tour and Tour::new_dummy (verified here, verbatim bodies).
+//
+// Contract of remove_segment(&self, segment, vehicle_idx) (vocabulary in env/remove_segment_shim.vs; t = the provider's
+// tour, lo / hi = t.index_of(segment.start / end), removed = t.mid(lo, hi + 1), kept = t.rest(lo, hi + 1) as in the
+// contract of Tour::remove):
+//   * Err if the vehicle is not a real vehicle; Err if Tour::remove refuses (C12: segment not in the tour, would strand a
+//     depot, would leave an unconnectable gap);
+//   * otherwise the result is either that of replace_vehicle_by_dummy (uninterpreted here: spec_replace_by_dummy) -- and
+//     it IS that result when fewer than 3 nodes are kept -- or Ok with exactly this effect:
+//     vehicle set / grouped id lists / network unchanged; tours[v].nodes == kept (real, well-formed, caches exact); every
+//     other key of `tours` keeps its tour, same key set; if `removed` contains a service trip, a NEW dummy tour under
+//     VehicleIdx::Dummy(self.vehicle_counter as Idx) (an id not in use) holds exactly the service trips of `removed` in
+//     order, all other dummy tours are untouched, the sorted id list gains exactly that id and stays sorted, and the
+//     counter advances by one (fresh_dummy_id); without a service trip dummy tours, id list and counter are unchanged;
+//     formations: same key set, only the removed activities change, there the provider leaves (order kept);
+//     unserved passengers: exact delta; costs = old - old tour + new tour; depot usage exact for the new maps; rotation
+//     cycles consistent with the new tours, membership, violation sum, other types untouched; ids_ok preserved.
+//
+// ASSUMPTIONS introduced by this slice (env/remove_segment_shim.vs unless said otherwise):
+//   A-std7   <[T]>::binary_search (result on a slice sorted w.r.t. Ord::cmp, transcribed from the std documentation),
+//            Result::unwrap_or_else                                                      -- assume_specification
+//   A-derive derived PartialOrd / Ord of VehicleIdx: variant order, then the index (vidx_rank)  -- *SpecImpl
+//   A-display `{}` of Segment has no precondition (no-op Display impl below)              -- DisplaySpecImpl
+//   A-stub   Schedule::replace_vehicle_by_dummy: `r == spec_replace_by_dummy(self, v)` (uninterpreted; R7b)
+//   A-iter   Path::iter yields the node sequence (SeqIter, as in the other slices; R7b)
+//   stubs with the contract text of the slice that verifies them (R7a): Tour::remove, Tour::new_computing (tour_mod),
+//            Schedule::update_tour_and_costs, Schedule::update_depot_usage (depot_usage),
+//            Schedule::update_transitions_and_violation_fast (sched_guard),
+//            Schedule::update_train_formation (train_formation_update; R12 parameter type SeqIter<NodeIdx>)
+//   plus the shared ones: env/im_shim.vs (im::HashMap / Vec::retain), env/schedule_shim.vs (im::HashSet, sched_vehicles),
+//            env/seqiter.vs, env/model_fns.vs / time_ops.vs / dist_ops.vs included trusted, key model of the index types.
+//
+// PRECONDITIONS (caller side):
+//   rs_ok          sched_ok (env/schedule_shim.vs) + ids_ok (vehicles stored under their own `Vehicle` id and have a tour,
+//                  dummy ids are `Dummy` ids below the counter, sorted id list) + formations_ok (every activity has a
+//                  formation; it lists the vehicles whose tours contain the node) + transitions_ok (the old-schedule
+//                  clauses of upd_pre, fewer than 2^17 vehicles) + usage_exact
+//   segment ends are nodes of the network
+//   A-idwidth      self.vehicle_counter <= 0xffff: `self.vehicle_counter as Idx` truncates to 16 bit; beyond that the
+//                  "new" id wraps around and may overwrite an existing dummy tour (see the report of this slice)
+//   A-counter      shrunk_counter_ok: the maintenance counter of the shrunk tour is small (tour_counter is an
+//                  uninterpreted atom of env/transition_spec.vs, so the magnitude cannot be derived here)
+//   tfu_pre        the precondition of update_train_formation for the removed nodes (u32 magnitudes, the trips' vehicle
+//                  types, C09 for the unserved-passenger pair); required as is, not derived from rs_ok
+//
+// NOT covered: which of the two cases applies when 3 or more nodes are kept (Tour::remove's contract does not say when
+//   the shrunk tour is None); replace_vehicle_by_dummy itself; preservation of rs_ok as a whole (only ids_ok, usage_exact
+//   and the transition clauses are shown for the result); connectedness of the new dummy tour (A-path / D9).
 #![feature(allocator_api)]
 use vstd::prelude::*;
 use std::ops::Add;
@@ -348,13 +397,10 @@ use self::tfu::*;
 //@before "Ok(Schedule::new("
                 proof {
                     lemma_transitions_follow(self, vehicle_idx, next_period_transitions@, maintenance_violation, tours@);
-                    assert(self.provider_shrunk(segment, vehicle_idx, tours@));
-                    assert(self.other_tours_untouched(vehicle_idx, tours@));
-                    assert(self.formations_follow(removed, vehicle_idx, train_formations@));
-                    if has_service(&self.network, removed) {
-                        assert(self.trips_handed_back(removed, dummy_tours@, dummy_ids_sorted@));
+                    // (guarded: a wrong map or counter shows up at the tagged postconditions, not at the lemma's precondition)
+                    if ids_step(self, vehicle_idx, tours@, dummy_tours@, dummy_ids_sorted@, vehicle_counter, has_service(&self.network, removed)) {
+                        lemma_ids_stay_valid(self, vehicle_idx, tours@, dummy_tours@, dummy_ids_sorted@, vehicle_counter, has_service(&self.network, removed));
                     }
-                    lemma_ids_stay_valid(self, vehicle_idx, tours@, dummy_tours@, dummy_ids_sorted@, vehicle_counter, has_service(&self.network, removed));
                 }
 //@end
 
